@@ -26,6 +26,13 @@ def type_oracle(tname, binary_pending, attach_done=None):
                     isinstance(r, ast.Attribute) and \
                     U(r.value) == 'packet':
                 return r.attr == tname
+        if isinstance(a, ast.Compare) and len(a.ops) == 1 and \
+                isinstance(a.ops[0], ast.In) and \
+                isinstance(a.left, ast.Attribute) and \
+                a.left.attr == 'packet_type' and \
+                isinstance(a.comparators[0], (ast.Tuple, ast.List)):
+            return tname in [x.attr for x in a.comparators[0].elts
+                             if isinstance(x, ast.Attribute)]
         t = U(a)
         if t.endswith(' in self._binary_packet') or \
                 t == 'self._binary_packet':
